@@ -42,6 +42,8 @@ struct Shared {
     mode: Mutex<Action>,
     stop: AtomicBool,
     coarse_reads: AtomicUsize,
+    /// Requests received by the scripted chronyd during the current step.
+    requests_this_step: AtomicUsize,
 }
 
 fn bind_socket(sh: &Shared) {
@@ -67,6 +69,7 @@ fn server(sh: Arc<Shared>) {
         match got {
             Some((n, addr, sock)) if n >= 12 => {
                 let mode = *sh.mode.lock().unwrap();
+                sh.requests_this_step.fetch_add(1, Ordering::SeqCst);
                 // chronyd is slow: virtual time passes between the request and the reply (or the
                 // timeouts). Applied once per step.
                 let lat = sh.latency_ns.swap(0, Ordering::SeqCst);
@@ -74,7 +77,9 @@ fn server(sh: Arc<Shared>) {
                     sh.mono_ns.fetch_add(lat, Ordering::SeqCst);
                 }
                 let seq = u32::from_be_bytes(buf[8..12].try_into().unwrap());
-                let r = Report { ref_id: 0x7f7f_0101, leap: 0, ref_time_ns: T0_REAL_S as i128 * NS, correction_bits: float_bits(1 << 12, 0), delay_bits: float_bits(1 << 12, 0), dispersion_bits: float_bits(1 << 12, 0), interval_bits: bits_of_f64(16.0) };
+                // the reply is tagged with the step it answers (low 16 bits of the reference id)
+                let tag = (sh.step.load(Ordering::SeqCst) as u32).wrapping_sub(1) & 0xffff;
+                let r = Report { ref_id: 0x7f7f_0000 | tag, leap: 0, ref_time_ns: T0_REAL_S as i128 * NS, correction_bits: float_bits(1 << 12, 0), delay_bits: float_bits(1 << 12, 0), dispersion_bits: float_bits(1 << 12, 0), interval_bits: bits_of_f64(16.0) };
                 match mode {
                     Action::Answer => {
                         if let Some(p) = addr.as_pathname() {
@@ -126,7 +131,7 @@ fn gen_script(rng: &mut Rng, with_silent: bool) -> (i64, Vec<(i64, Action, i64)>
         let act = if i == 0 && rng.chance(1, 2) { fail(rng) } else if rng.chance(1, 2) { Action::Answer } else { fail(rng) };
         // Place the step relative to the threshold when it is a failure after a good answer.
         let dt: i64 = match (act, last_good) {
-            (Action::Answer, _) => 1_000_000_000 + rng.range(0, 10_000_000),
+            (Action::Answer, _) => if rng.chance(1, 6) { rng.range(1_000_000, 90_000_000) } else { 1_000_000_000 + rng.range(0, 10_000_000) },
             (_, Some(g)) => {
                 let target = g + match rng.below(6) { 0 => 5 * NS as i64 - 1, 1 => 5 * NS as i64, 2 => 5 * NS as i64 + 1, 3 => rng.range(0, 5_000_000_000 - 2), 4 => rng.range(5_000_000_001, 600_000_000_000), _ => 1_000_000_000 };
                 (target - t).max(0)
@@ -150,7 +155,7 @@ pub fn run(a: &Args) -> Value {
         return json!({"inconclusive": "not inside the private /run namespace (marker /var/run/chrony/.verif-private missing)", "evaluations": 0, "violations": []});
     }
     let with_silent = a.map.get("silent").map(|s| s == "1").unwrap_or(false);
-    let sh = Arc::new(Shared { mono_ns: AtomicI64::new(0), latency_ns: AtomicI64::new(0), real_offset_ns: AtomicI64::new(0), rt_steps: Mutex::new(Vec::new()), step: AtomicUsize::new(0), script: Mutex::new(Vec::new()), socket: Mutex::new(None), mode: Mutex::new(Action::Answer), stop: AtomicBool::new(false), coarse_reads: AtomicUsize::new(0) });
+    let sh = Arc::new(Shared { mono_ns: AtomicI64::new(0), latency_ns: AtomicI64::new(0), real_offset_ns: AtomicI64::new(0), rt_steps: Mutex::new(Vec::new()), step: AtomicUsize::new(0), script: Mutex::new(Vec::new()), socket: Mutex::new(None), mode: Mutex::new(Action::Answer), stop: AtomicBool::new(false), coarse_reads: AtomicUsize::new(0), requests_this_step: AtomicUsize::new(0) });
     // Virtual clock: every CLOCK_MONOTONIC_COARSE read of a virtual thread starts the next step.
     {
         let sh = sh.clone();
@@ -158,6 +163,7 @@ pub fn run(a: &Args) -> Value {
             if clk == libc::CLOCK_MONOTONIC_COARSE {
                 sh.coarse_reads.fetch_add(1, Ordering::SeqCst);
                 let k = sh.step.fetch_add(1, Ordering::SeqCst);
+                sh.requests_this_step.store(0, Ordering::SeqCst);
                 let script = sh.script.lock().unwrap();
                 if let Some((t, act, lat)) = script.get(k).cloned() {
                     drop(script);
@@ -262,8 +268,11 @@ pub fn run(a: &Args) -> Value {
             }
             if let Message::ClockErrorBoundData((tr, phc, as_of)) = m {
                 let as_of_ns = as_of.tv_sec as i64 * NS as i64 + as_of.tv_nsec as i64;
-                if as_of_ns != *t || *phc != 0 || tr.ref_id != 0x7f7f_0101 {
+                if as_of_ns != *t || *phc != 0 {
                     violation(&mut violations, a, "C13", "real-poller-measurement", format!("step {} answer at monotonic {} ns: message as_of {} ns, phc bound {}, ref id {:#x}", i, t, as_of_ns, phc, tr.ref_id), json!({"script": format!("{:?}", script)}));
+                }
+                if tr.ref_id != (0x7f7f_0000 | (i as u32 & 0xffff)) {
+                    violation(&mut violations, a, "C12", "report-not-from-this-poll", format!("step {} (as_of {} ns): the measurement message carries chronyd's reply to the request of step {} — its as_of was not read before the request that produced the report", i, as_of_ns, tr.ref_id & 0xffff), json!({"script": format!("{:?}", script)}));
                 }
             }
             if *act == Action::Answer {
